@@ -367,9 +367,9 @@ Section Loops.
   Proof.
     induction fuel as [|f IH]; intros l0 t Hc Hl Hf; [lia|].
     destruct l0 as [|x l1]; cbn [app head] in *.
-    - destruct (chain_head _ _ _ _ Hc) as [p Hm]. cbn [find_last].
+    - destruct (chain_head m None t [] Hc) as [p Hm]. cbn [find_last].
       mstep (get_next_with h m t _ _ (Hl t (elem_of_list_here _ _)) Hm). reflexivity.
-    - destruct (chain_head _ _ _ _ Hc) as [p Hm]. cbn [find_last].
+    - destruct (chain_head m None x (l1 ++ [t]) Hc) as [p Hm]. cbn [find_last].
       assert (live x) as Lx by (apply Hl; left).
       mstep (get_next_with h m x _ _ Lx Hm).
       destruct (head (l1 ++ [t])) eqn:Eh; [|destruct l1; discriminate].
